@@ -14,7 +14,8 @@ func init() {
 			"messageBatch.marshal is trusted not to panic (its buffer size computation is not verified)",
 		},
 		NotCovered: []string{
-			"which batch GetNext returns (smallest id greater than x), blocking, wake-up and cancellation: these need a model of the ordered key-value store plus scheduling/liveness reasoning, which function contracts over sequential code cannot express; Get returning exactly what was added needs the same store model",
+			"which batch GetNext returns (smallest id greater than x) and Get returning exactly what was added need a model of the ordered key-value store, which the contracts lack: covered only by a labelled BOUNDED stand-in for sequential programs (bounded_standins; not a proof, not counted)",
+			"blocking, wake-up timing, cancellation and every interleaving of concurrent readers and writers (scheduling/liveness reasoning is outside sequential function contracts)",
 		},
 	}
 	p.Prepare = func(e *vc.Engine) error {
@@ -26,5 +27,6 @@ func init() {
 		}
 		return nil
 	}
+	p.BoundedRun = streamBounded
 	register(p)
 }
